@@ -86,6 +86,7 @@ def run(prog: Program, rep: Report, tier: str) -> None:
     bad_t = None
     bad_n = None
     n_next = 0
+    rets = [o for o in rets if not all_residues_missed(o.state.pc, sel)]
     for o in rets:
         v = o.value
         if T.contains_top(v):
@@ -98,7 +99,8 @@ def run(prog: Program, rep: Report, tier: str) -> None:
             n_next += 1
             x = atoms[1][1]
             # provenance of the named day
-            okn = isinstance(x, tuple) and x[0] == "lookup" and tuple(x[1]) == table and isinstance(x[2], tuple) and x[2][0] == "elemof" and x[2][1] == sel
+            okn = isinstance(x, tuple) and x[0] == "lookup" and tuple(x[1]) == table and isinstance(x[2], tuple) and (
+                (x[2][0] == "elemof" and x[2][1] == sel) or any(isinstance(g, tuple) and g[:2] == ("cmp", "in") and g[2] == x[2] and _same_sel(g[3], sel) for g in _flat13(o.state.pc)))
             if not okn:
                 bad_n = f"the weekday named is {T.show(x)[:260]}; it must be Days.value looked up by weekday number for an ELEMENT of the selected days' weekdays"
             continue
@@ -116,7 +118,7 @@ def run(prog: Program, rep: Report, tier: str) -> None:
     else:
         from .c17 import _flat
         pcs = _flat(todays[0].state.pc)
-        mem = [g for g in pcs if isinstance(g, tuple) and g[:2] == ("cmp", "in") and g[3] == sel and isinstance(g[2], tuple) and g[2][:2] == ("app", ".weekday")]
+        mem = [g for g in pcs if isinstance(g, tuple) and g[:2] == ("cmp", "in") and (g[3] == sel or _same_sel(g[3], sel)) and isinstance(g[2], tuple) and g[2][:2] == ("app", ".weekday")]
         lt = [g for g in pcs if isinstance(g, tuple) and g[0] == "cmp" and g[1] in ("<", ">") and _mentions_sym(g, fi.params[0])]
         strict_ok = False
         for g in lt:
@@ -185,7 +187,7 @@ def run(prog: Program, rep: Report, tier: str) -> None:
         if is_nxt:
             N_list = [atoms[1][1][2]] if atoms[1][0] == "txt" and isinstance(atoms[1][1], tuple) and atoms[1][1][0] == "lookup" else []
         else:
-            N_list = [n for n in day_terms(o.state.pc) if not (isinstance(n[2], tuple) and n[2] == c(-1))]
+            N_list = [n for n in day_terms(o.state.pc) if not (isinstance(n[2], tuple) and n[2] == c(-1))] + _mods(o.state.pc)
         if W is None or not N_list:
             bad5 = bad5 or "could not identify the chosen day / current weekday on a 'tomorrow'/'next' path"
             continue
@@ -241,6 +243,22 @@ def run(prog: Program, rep: Report, tier: str) -> None:
         Ns = [n for n in day_terms(pcs_o)]
         if atoms[:1] == (("L", "Due next "),) and atoms[1][0] == "txt" and isinstance(atoms[1][1], tuple) and atoms[1][1][0] == "lookup":
             Ns = [atoms[1][1][2]]
+        # alternative algorithm: walk forward from tomorrow, (today + k) % 7 for k = 1..7, first selected one
+        walk = None
+        for n in ([atoms[1][1][2]] if (atoms[:1] == (("L", "Due next "),) and atoms[1][0] == "txt" and isinstance(atoms[1][1], tuple) and atoms[1][1][0] == "lookup") else []) + _mods(pcs_o):
+            if isinstance(n, tuple) and n[:2] == ("app", "mod") and n[3] == c(7):
+                lk = T.Lin.of(n[2]) - T.Lin.of(W)
+                if lk.is_const() and isinstance(lk.const, int) and (walk is None or lk.const > walk[0]):
+                    walk = (int(lk.const), n)
+        if walk is not None and not [e for e in o.state.events if e.kind == "reorder"] and later is None:
+            k, nterm = walk
+            fl = _flat13(pcs_o)
+            hit = any(isinstance(g, tuple) and g[:2] == ("cmp", "in") and g[2] == nterm and _same_sel(g[3], sel) for g in fl)
+            misses = all(any(isinstance(g, tuple) and g[:2] == ("cmp", "not in") and g[2] == ("app", "mod", (T.Lin.of(W) + j).term(), c(7)) and _same_sel(g[3], sel) for g in fl) for j in range(1, k))
+            if not (1 <= k <= 7 and hit and misses):
+                bad6 = bad6 or (f"the day is found by walking forward from tomorrow; a path answers with (today + {k}) % 7 {'without it being a selected day' if not hit else 'although an earlier candidate was not ruled out'}: "
+                                f"the walk must try today+1 .. today+7 (the same weekday a week ahead) and stop at the first selected one")
+            continue
         sorts = [e for e in o.state.events if e.kind == "reorder" and e.args and e.args[0] == sel]
         first_use = min([i for i, g in enumerate(pcs_o) if ("elemof" in T.show(g) or "filterobj" in T.show(g) or "nomatch" in T.show(g) or "emptyindex" in T.show(g))] or [len(pcs_o)])
         ok_sort = any(e.target == "sort" and not e.kwargs and len(e.args) == 1 and e.pc_len <= first_use for e in sorts) and not any(e.target == "reverse" for e in sorts)
@@ -280,6 +298,50 @@ def run(prog: Program, rep: Report, tier: str) -> None:
         rep.check(bad5 is None, "R13.5", "guard of 'tomorrow'", where, bad5 or "", f"{n_tom} 'tomorrow' and {n_nxt} 'next' paths", key="R13.5|tomorrow-guard")
         rep.ok("R13.5", "paths", where, f"{n_tom}+{n_nxt} paths examined")
     rep.sample({"paths": [(o.kind, o.exc_name or T.show(o.value)[:120]) for o in outs], "clock_reads": sorted(reads)})
+
+
+def _mods(pc: List[T.Term]) -> List[T.Term]:
+    found: List[T.Term] = []
+
+    def walk(v: Any) -> None:
+        if isinstance(v, tuple):
+            if v[:2] == ("app", "mod") and len(v) == 4 and v not in found:
+                found.append(v)
+            for x in v:
+                walk(x)
+        elif isinstance(v, T.Lin):
+            for t in v.coef:
+                walk(t)
+    for g in pc:
+        walk(g)
+    return found
+
+
+def all_residues_missed(pc: List[T.Term], sel: T.Term) -> bool:
+    """Lemma: (w + k) mod 7 for k = 1..7 covers every weekday, so a path on which all seven are 'not in S'
+    implies S is empty - impossible after the 'no days' case was answered.  Such a path is infeasible."""
+    ks = set()
+    for g in _flat13(pc):
+        if isinstance(g, tuple) and g[:2] == ("cmp", "not in") and _same_sel(g[3], sel) and isinstance(g[2], tuple) and g[2][:2] == ("app", "mod") and g[2][3] == c(7):
+            w_terms = [t for t in T.Lin.of(g[2][2]).coef]
+            if len(w_terms) == 1 and isinstance(T.Lin.of(g[2][2]).const, int):
+                ks.add(T.Lin.of(g[2][2]).const % 7)
+    return len(ks) == 7
+
+
+def _flat13(pc: List[T.Term]) -> List[T.Term]:
+    out: List[T.Term] = []
+    for g in pc:
+        if isinstance(g, tuple) and g and g[0] == "and":
+            out.extend(g[1:])
+        else:
+            out.append(g)
+    return out
+
+
+def _same_sel(a: Any, sel: T.Term) -> bool:
+    """The selected weekdays as a list or as a set comprehension over the same days."""
+    return isinstance(a, tuple) and len(a) == 4 and a[0] == "mapobj" and a[:3] == sel[:3]
 
 
 def _mentions_sym(v: Any, name: str) -> bool:
